@@ -73,6 +73,17 @@ def convert(route, x, dst, r, o):
 
 
 def make_source(src, cs, shape, by):
+    if by == 'raw_T':
+        # a 2-d source that is a transposed (not C-contiguous) view holding the codes cs in logical row-major order
+        r, c = shape
+        arr = np.array(cs, dtype=np.int64).reshape(r, c)
+        x = Fxp(np.ascontiguousarray(arr.T), src.signed, src.n_word, src.n_frac, raw=True).T
+        assert codes(x) == list(cs)
+        return x
+    return _make_source(src, cs, shape, by)
+
+
+def _make_source(src, cs, shape, by):
     """by='raw': codes written raw (value type unset); by='value': built from the exact values (integer values give the
     object an integer value type, which conversions must not let leak into the rounding)"""
     if by == 'raw':
@@ -247,6 +258,8 @@ def run_shard(sh):
                                 judge(acc, src, dst, r, o, [c], (), 'setitem_elem', 'E1s', 'value')
                     if src.n_word in (2, 3) and (r, o) in (('trunc', 'saturate'), ('around', 'wrap')):
                         judge(acc, src, dst, r, o, cs[:4], (2, 2), route, 'E1m')
+                        if len(cs) >= 6 and route != 'value':
+                            judge(acc, src, dst, r, o, cs[:6], (2, 3), route, 'E1m', 'raw_T')
     elif sh['part'] == 'G':
         nw = sh['nw']
         big = (8, 16, 24, 32, 52)
